@@ -8,6 +8,7 @@ import (
 	"os"
 	"path/filepath"
 	"sort"
+	"strconv"
 	"strings"
 	"time"
 
@@ -89,15 +90,25 @@ func (m *backupImpl) Do(line string) string {
 				st.BackupDelay = 2 * time.Millisecond // continuous loop (starts with the node's first backup tick, 1 s after it became primary)
 				st.BackupFullSyncInterval = time.Hour
 			}
-			st.Leaser = litefs.NewStaticLeaser(true, "localhost", "http://127.0.0.1:1")
+			st.Leaser = litefs.NewStaticLeaser(f[1] != "replica", "localhost", "http://127.0.0.1:1")
 			return nil
 		}
 		if err := m.eng.openStore(f[1]); err != nil {
 			return "err"
 		}
-		for i := 0; i < 500 && !m.eng.store.IsPrimary(); i++ {
+		for i := 0; i < 500 && f[1] != "replica" && !m.eng.store.IsPrimary(); i++ {
 			time.Sleep(time.Millisecond)
 		}
+		return "ok"
+	case "hwm-frame": // <txid>: a replica receives the primary's high-water mark (HWM stream frame)
+		if m.eng.db == nil || len(f) != 2 {
+			return "bad-op"
+		}
+		n, err := strconv.ParseUint(f[1], 10, 64)
+		if err != nil {
+			return "bad-op"
+		}
+		m.eng.db.SetHWM(ltx.TXID(n))
 		return "ok"
 	case "reopen-loop": // restart with the continuous sync loop instead of explicit one-pass syncs
 		if m.eng.store == nil {
@@ -265,6 +276,7 @@ func genBackup(c *Ctx) error {
 		nHist = 160
 	}
 	directedBackupLoop(c)
+	directedReplicaRetention(c)
 	for h := 0; h < nHist; h++ {
 		ps := pick(r, []int{512, 1024, 4096})
 		cs := c.Begin()
@@ -365,10 +377,14 @@ func genBackup(c *Ctx) error {
 			case k == 7: // retention between syncs: only files the service acknowledged may go
 				pagerStep(c, p, 4)
 				noteCommit()
+				do("ltx")
+				do("hwm")
 				do("age")
 				do("retain")
 				observe(what + " (retention before sync)")
 				sync(what)
+				do("ltx")
+				do("hwm")
 				do("age")
 				do("retain")
 				observe(what + " (retention after sync)")
@@ -438,6 +454,43 @@ func genBackup(c *Ctx) error {
 		}
 	}
 	return nil
+}
+
+// directedReplicaRetention: a replica with a backup service configured joined by snapshot (one
+// file covering TXIDs 1..k), applied further transactions and learns the primary's high-water
+// mark from the stream while the service lags; a retention sweep after each mark.
+func directedReplicaRetention(c *Ctx) {
+	r := c.Rng
+	for _, k := range []int{3, 4, 6} {
+		cs := c.Begin()
+		do := func(op string) string { c.Count("op." + strings.SplitN(op, " ", 2)[0]); return cs.Do(op) }
+		v := newVPrimary(r, pick(r, []int{512, 4096}))
+		do("open replica")
+		for i := 0; i < k; i++ {
+			v.randomCommit(4)
+		}
+		do("sapply " + v.snapshot())
+		do("sapply " + v.randomCommit(3))
+		do("sapply " + v.randomCommit(3))
+		cs.Do(v.refLine())
+		do("state")
+		for _, h := range []int{1, k - 1, k, k + 1, k + 2} {
+			do(fmt.Sprintf("hwm-frame %d", h))
+			do("ltx")
+			do("hwm")
+			do("age")
+			do("retain")
+			do("ltx")
+			do("state")
+		}
+		do("sapply " + v.randomCommit(3))
+		cs.Do(v.refLine())
+		do("state")
+		do("ltx")
+		cs.End()
+		c.Count("directed.replica-retention")
+		c.Nontrivial(fmt.Sprintf("directed-replica-retention-%d", k))
+	}
 }
 
 // directedBackupLoop: the continuous sync loop (cached service positions) against a backlog on
